@@ -8,6 +8,9 @@
 // Grid: every sequence of up to 3 rows and a sample of those of 4 and 5 over a 7-row pool (NULL keys, NULL arguments, a group
 // whose argument is NULL on every row, TEXT arguments) x 12 statement shapes (HAVING over aggregates that are and are not in the select list, in either order).  Every statement has COUNT(*): the groups of
 // the two known findings (no cell at all) do not occur here.
+// Also: STDDEV / VARIANCE / PERCENTILE through relations that hold for any definition (variance = deviation squared, zero
+// exactly for equal values, shift invariance, scaling, percentiles monotone in p, between MIN and MAX, 0.0 / 1.0 = MIN / MAX, the
+// median of an odd count is the middle value) over sequences of 2..4 of 7 values.
 include!("verif_grid_common.rs");
 include!("verif_grid_qcommon.rs");
 use serde_json::{json, Value as J};
@@ -104,6 +107,45 @@ fn verif_grid() {
                         else { Err(format!("{} over {:?} printed {:?}; computed from the rows of each group: {:?}", STATEMENTS[shape], lines, printed, want.iter().map(|w| w.to_string()).collect::<Vec<_>>())) }
                     }
                     other => Err(format!("{} over {:?}: {:?}", STATEMENTS[shape], lines, other)),
+                }
+            });
+        }
+    }
+    // STDDEV / VARIANCE / PERCENTILE: relations that hold whatever the exact definition (population or sample, interpolation rule) is
+    {
+        let values: [i64; 7] = [1, 2, 2, 5, -3, 10, 7];
+        let idx: Vec<String> = (0..values.len()).map(|i| i.to_string()).collect();
+        let idx_refs: Vec<&str> = idx.iter().map(|s| s.as_str()).collect();
+        for (bi, seq) in sequences(&idx_refs, 4).into_iter().enumerate() {
+            if seq.len() < 2 || (seq.len() == 4 && bi % 5 != 0) { continue; }
+            let vs: Vec<i64> = seq.iter().map(|s| values[s.parse::<usize>().unwrap()]).collect();
+            g.case(&format!("spread-b{}", bi), move || {
+                let lines: Vec<String> = vs.iter().map(|v| format!("k=a v={} s=x", v)).collect();
+                let l: Vec<&str> = lines.iter().map(|s| s.as_str()).collect();
+                let query = "SELECT STDDEV(v) AS sd, VARIANCE(v) AS var, STDDEV(v + 10) AS sd_shift, STDDEV(v * 2) AS sd_scale, PERCENTILE(v, 0.0) AS p0, PERCENTILE(v, 0.25) AS p25, PERCENTILE(v, 0.5) AS p50, PERCENTILE(v, 0.75) AS p75, PERCENTILE(v, 1.0) AS p100, MIN(v) AS lo, MAX(v) AS hi, COUNT(*) AS n FROM t";
+                match q(DEF, query, &l) {
+                    Outcome::Lines(rows, _) => {
+                        let r: J = serde_json::from_str(&rows[0]).map_err(|e| e.to_string())?;
+                        let f = |k: &str| r[k].as_f64();
+                        let close = |a: f64, b: f64| (a - b).abs() <= 1e-9 * (1.0 + a.abs().max(b.abs()));
+                        let (sd, var) = match (f("sd"), f("var")) { (Some(a), Some(b)) => (a, b), _ => return Err(format!("{} over {:?}: STDDEV / VARIANCE have no value: {}", query, vs, rows[0])) };
+                        if !close(sd * sd, var) { return Err(format!("values {:?}: STDDEV = {} and VARIANCE = {}: the variance is not the square of the deviation", vs, sd, var)); }
+                        if sd < 0.0 { return Err(format!("values {:?}: STDDEV = {}", vs, sd)); }
+                        if vs.iter().all(|v| *v == vs[0]) && !close(var, 0.0) { return Err(format!("equal values {:?}: VARIANCE = {}", vs, var)); }
+                        if !vs.iter().all(|v| *v == vs[0]) && var <= 0.0 { return Err(format!("different values {:?}: VARIANCE = {}", vs, var)); }
+                        if !close(f("sd_shift").unwrap_or(f64::NAN), sd) { return Err(format!("values {:?}: STDDEV(v + 10) = {:?}, STDDEV(v) = {}", vs, f("sd_shift"), sd)); }
+                        if !close(f("sd_scale").unwrap_or(f64::NAN), 2.0 * sd) { return Err(format!("values {:?}: STDDEV(v * 2) = {:?}, 2 * STDDEV(v) = {}", vs, f("sd_scale"), 2.0 * sd)); }
+                        let (lo, hi) = (*vs.iter().min().unwrap() as f64, *vs.iter().max().unwrap() as f64);
+                        let p: Vec<f64> = ["p0", "p25", "p50", "p75", "p100"].iter().map(|k| f(k).unwrap_or(f64::NAN)).collect();
+                        if p[0] != lo || p[4] != hi || f("lo") != Some(lo) || f("hi") != Some(hi) { return Err(format!("values {:?}: PERCENTILE 0.0 / 1.0 are {} / {}, MIN / MAX print {:?} / {:?}; the smallest and largest values are {} / {}", vs, p[0], p[4], f("lo"), f("hi"), lo, hi)); }
+                        if !(p[0] <= p[1] && p[1] <= p[2] && p[2] <= p[3] && p[3] <= p[4]) { return Err(format!("values {:?}: the percentiles 0, 0.25, 0.5, 0.75, 1 are {:?}: not monotone", vs, p)); }
+                        if !p.iter().all(|x| vs.iter().any(|v| *v as f64 == *x)) { return Err(format!("values {:?}: a percentile {:?} is not one of the values", vs, p)); }
+                        let mut sorted = vs.clone(); sorted.sort();
+                        if sorted.len() % 2 == 1 && p[2] != sorted[sorted.len() / 2] as f64 { return Err(format!("values {:?}: the median of an odd number of values is the middle one ({}), PERCENTILE(v, 0.5) = {}", vs, sorted[sorted.len() / 2], p[2])); }
+                        if r["n"].as_i64() != Some(vs.len() as i64) { return Err(format!("values {:?}: COUNT(*) = {}", vs, r["n"])); }
+                        Ok(())
+                    }
+                    other => Err(format!("{} over {:?}: {:?}", query, vs, other)),
                 }
             });
         }
